@@ -165,7 +165,17 @@ func (bt *Tree) Copy() *Tree {
 		nodes = nodes[1:]
 		nodeCopies = nodeCopies[1:]
 		for _, e := range n.edges {
-			cpt := &node{key: e.target.key, data: e.target.data}
+			cpt := &node{key: e.target.key}
+			if e.target.data != nil {
+				// Copy the sequences too, since updates to the original tree modify
+				// them (and the slice holding them) in place.
+				cpt.data = make([]encoding.Sequence, len(e.target.data))
+				for i, seq := range e.target.data {
+					if seq != nil {
+						cpt.data[i] = append(encoding.Sequence(nil), seq...)
+					}
+				}
+			}
 			cpn.edges = append(cpn.edges, &edge{label: e.label, target: cpt})
 			nodes = append(nodes, e.target)
 			nodeCopies = append(nodeCopies, cpt)
